@@ -355,47 +355,47 @@ func main() {
 			var c Case
 			_ = report.Recase(raw, &c)
 			fmt.Printf("driver %s: %s: %s\nschedule: %v\n", c.Driver, c.Kind, c.Msg, c.Schedule)
-			for _, observer := range []bool{false, true} {
-				for _, d := range drivers {
-					if d.name != c.Driver {
-						continue
-					}
-					for rep := 0; rep < 2; rep++ {
-						s := vsched.NewSched()
-						w := harness{d: d, observer: c.Observer}.Start(s)
-						ok := true
-						for _, a := range c.Schedule {
-							en := false
-							for _, e := range s.Enabled() {
-								if e == a {
-									en = true
-								}
+			for _, d := range drivers {
+				if d.name != c.Driver {
+					continue
+				}
+				for rep := 0; rep < 2; rep++ {
+					s := vsched.NewSched()
+					w := harness{d: d, observer: c.Observer}.Start(s)
+					ok := true
+					for _, a := range c.Schedule {
+						en := false
+						for _, e := range s.Enabled() {
+							if e == a {
+								en = true
 							}
-							if !en {
-								fmt.Printf("  replay %d: action %v not enabled\n", rep, a)
-								ok = false
-								break
-							}
-							s.Step(a)
 						}
-						if ok {
-							fmt.Printf("  replay %d: state %s\n  problems: %v\n", rep, w.Key(), w.CheckState())
+						if !en {
+							fmt.Printf("  replay %d: action %v not enabled\n", rep, a)
+							ok = false
+							break
 						}
-						s.Close()
+						s.Step(a)
 					}
+					if ok {
+						fmt.Printf("  replay %d: state %s\n  problems: %v\n", rep, w.Key(), w.CheckState())
+					}
+					s.Close()
 				}
 			}
-			return
 		}
-		r := report.New("C07")
-		if !instrumented {
-			r.NotExhaustive("instrumentation incomplete (cmd/instr could not model a construct of the current sources): nothing was explored")
-			r.Note("see instr output; no verdict")
-			r.Sample("not explored")
-			r.Finish(report.Coverage{States: 1, Transitions: 1, Evaluations: 1, Nontrivial: 0, Rule: "instrumentation incomplete"})
-		}
-		var states, trans, execs, terms, branching int64
-		outcomes := report.NewDistinctSet()
+		return
+	}
+	r := report.New("C07")
+	if !instrumented {
+		r.NotExhaustive("instrumentation incomplete (cmd/instr could not model a construct of the current sources): nothing was explored")
+		r.Note("see instr output; no verdict")
+		r.Sample("not explored")
+		r.Finish(report.Coverage{States: 1, Transitions: 1, Evaluations: 1, Nontrivial: 0, Rule: "instrumentation incomplete"})
+	}
+	var states, trans, execs, terms, branching int64
+	outcomes := report.NewDistinctSet()
+	for _, observer := range []bool{false, true} {
 		for _, d := range drivers {
 			res := vsched.Explore(harness{d: d, observer: observer}, vsched.Options{MaxStates: r.Pick(300000, 3000000)})
 			tengo.VerifNewVM = nil
